@@ -150,8 +150,14 @@ func Driver() int {
 			defer wg.Done()
 			rp := filepath.Join(outDir, fmt.Sprintf("shard-%s-%d.json", prop, i))
 			os.Remove(rp)
-			cmd := exec.Command(os.Args[0], "-test.run", "^TestVerif$", "-test.timeout", "0")
-			cmd.Env = append(os.Environ(),
+			bin := os.Args[0]
+			extraEnv := []string{}
+			if rb := os.Getenv("VERIF_RACE_BIN"); rb != "" && info.Engine == "history" && i >= shards-shards/4 {
+				bin = rb
+				extraEnv = append(extraEnv, fmt.Sprintf("GORACE=log_path=%s halt_on_error=0 exitcode=0", filepath.Join(outDir, fmt.Sprintf("race-%d", i))), "VERIF_RACE_PASS=1")
+			}
+			cmd := exec.Command(bin, "-test.run", "^TestVerif$", "-test.timeout", "0")
+			cmd.Env = append(append(os.Environ(), extraEnv...),
 				"VERIF_MODE=shard", "VERIF_PROP="+prop, "VERIF_TIER="+tier,
 				fmt.Sprintf("VERIF_SEED=%d", seed), fmt.Sprintf("VERIF_SHARD=%d", i), fmt.Sprintf("VERIF_SHARDS=%d", shards),
 				fmt.Sprintf("VERIF_BUDGET_S=%d", budget), "VERIF_REPORT="+rp, "VERIF_REPLAY_DIR="+replayDir,
